@@ -32,6 +32,7 @@ CONSTANTS Defects
 \*   ChainNext  ChainNext[k] = next key (0: no entry)
 \*   HasSel     entity has selector + chain for A
 \*   HasB       entity has a second animated component type B
+\*   C2Late     the second entity is spawned WITHOUT its target component (inserted later, if at all)
 \*   HasE2      a SECOND entity exists, carrying only an Animator<A> ("A2" below); animate::<A> handles
 \*              both entities, and its events name their entity, so they never reach the first
 \*              entity's chain
@@ -59,14 +60,17 @@ Animate(w, T, dt) ==
       ends == p >= tot /\ s2 # "Ended"
       s3 == IF ends THEN "Ended" ELSE s2
       \* evaluated while Playing; and (after the fix) when it ends without having played
-      evalNow == wasPlaying \/ (ends /\ "C18_phase_skip" \notin Defects)
+      \* ... provided the entity HAS the target component (the second entity may lack it for a while: the
+      \* animator's clock and state run regardless, there is just nothing to write)
+      present == T # "A2" \/ w.hasc2
+      evalNow == present /\ (wasPlaying \/ (ends /\ "C18_phase_skip" \notin Defects))
       changed == s3 # a.st
       w1 == [w EXCEPT !.an[T].st = s3,
                       !.an[T].pos = IF s3 # "Ended" THEN p + dt ELSE p,
                       !.an[T].runEnded = IF ends THEN @ + 1 ELSE @,
                       \* on the frame of the Waiting -> Playing transition the property leaves the component
                       \* open (evaluated or not): <<"any", frame>>
-                      !.cid[T] = IF evalNow THEN here ELSE IF s3 = "Playing" /\ ~wasPlaying THEN <<"any", w.frame>> ELSE @]
+                      !.cid[T] = IF evalNow THEN here ELSE IF present /\ s3 = "Playing" /\ ~wasPlaying THEN <<"any", w.frame>> ELSE @]
   IN IF changed THEN [w1 EXCEPT !.unread = Append(@, <<T, s3>>), !.out = Append(@, <<T, s3>>)] ELSE w1
 
 \* ---------------- select_animation::<K, A> ----------------------------------------
@@ -111,10 +115,13 @@ Reset(w, T)       == [w EXCEPT !.an[T].pos = 0, !.an[T].st = "None", !.an[T].run
 SetTimeline(w, T, id) == [w EXCEPT !.an[T].tl = id, !.an[T].ovf = -1]
 \* direct write to Animator::timeline_position: the state is NOT changed (documented)
 SetPos(w, T, p)    == [w EXCEPT !.an[T].pos = p]
+\* the second entity's target component removed / (re-)inserted with its initial values
+RmComp(w)  == [w EXCEPT !.hasc2 = FALSE, !.cid["A2"] = <<"absent">>]
+AddComp(w) == [w EXCEPT !.hasc2 = TRUE, !.cid["A2"] = <<"init", w.frame>>]
 
 NewAnimator(tl, en) == [en |-> en, pos |-> 0, st |-> "None", tl |-> tl, ovf |-> -1, runEnded |-> 0]
 World0(c, tlA, tlB, tlE2, key0, enA) ==
-  [c |-> c,
+  [c |-> c, hasc2 |-> ~c.C2Late,
    an |-> [T \in {"A", "B", "A2"} |-> IF T = "A" THEN NewAnimator(IF c.HasSel THEN 0 ELSE tlA, enA)
                                        ELSE IF T = "B" THEN NewAnimator(tlB, TRUE) ELSE NewAnimator(tlE2, TRUE)],
    cid |-> [T \in {"A", "B", "A2"} |-> <<"init">>],
